@@ -25,7 +25,8 @@ ASSUMPTIONS = [
     "port-set definitions of vf.refsem.sets.port_expr_mask (C08's own wording), self-tested",
     "operands outside 1..65535 are outside C08 (they appear in C20 only)",
 ]
-REQUIRED = ["set_exact", "codec_ok", "multi_operand_refused", "writeback_ok", "empty_set_expr"]
+REQUIRED = ["set_exact", "codec_ok", "multi_operand_refused", "writeback_ok", "empty_set_expr",
+            "reassign_ok"]
 
 BOUNDARY = [1, 2, 3, 7, 8, 9, 15, 16, 17, 255, 256, 257, 32767, 32768, 65533, 65534, 65535]
 SEEDC = [[80, 443, 8080], [22, 3389, 5060], [53, 1812, 20000], [123, 1024, 49152]]
@@ -70,6 +71,8 @@ def units(tier, seed):
         out.append(dict(kind="hist", expr=i))
     for i in range(len(CROSS)):
         out.append(dict(kind="hist_cross", first=i))
+    for i in range(len(REASSIGN)):
+        out.append(dict(kind="hist_reassign", first=i))
     return out
 
 
@@ -106,6 +109,8 @@ def run_unit(unit, ctx):
         _codec(unit["offset"], unit["chunk"], ctx)
     elif k == "hist":
         _hist(_hist_exprs()[unit["expr"]], ctx)
+    elif k == "hist_reassign":
+        _reassign(unit["first"], ctx)
     elif k == "hist_cross":
         # write-back on one expression, then on another one IN THE SAME PROCESS (shared state
         # between Port objects must not exist), then on the first again
@@ -131,6 +136,8 @@ def replay(case, ctx):
         _run_history(case["line"], case["platform"], case["views"], ctx)
     elif k == "platforms":
         _platforms(ctx)
+    elif k == "reassign":
+        _reassign(REASSIGN.index(case["a"]), ctx)
 
 
 # ------------------------------------------------------------------------------------------------
@@ -281,6 +288,54 @@ def _codec(offset, chunk, ctx):
 # expressions whose port lists share first element, last element and length pairwise
 CROSS = ["neq 3", "neq 4", "neq 7 9", "neq 8 9", "gt 7", "gt 8", "lt 9", "lt 8", "eq 10 26 30",
          "eq 10 28 30", "range 7 9", "range 8 9"]
+
+
+REASSIGN = ["eq 80", "eq 80 443", "eq 1 2 3", "range 7 9", "range 100 200", "lt 9", "gt 65530", "neq 65535",
+            "eq 65535", "lt 1", ""]
+
+
+def _reassign(first, ctx):
+    """One Port object re-pointed from expression A to expression B through each writable view:
+    afterwards every view must be the one of a fresh Port(B)."""
+    from cisco_acl import Port
+
+    a = REASSIGN[first]
+    if not a:
+        return  # a Port born without expression has no protocol (library design); not C08's subject
+    for b in REASSIGN:
+        if a == b:
+            continue
+        fresh = Port(b, platform="ios", protocol="tcp", port_nr=True)
+        want = _state(fresh)
+        for via in ("line", "items", "ports", "sport"):
+            if via != "line" and (not b or not a or a.split()[0] != b.split()[0]):
+                continue  # items/ports/sport keep the operator: only same-operator targets
+            ctx.ev()
+            ctx.nt_count()
+            case = dict(kind="reassign", a=a, b=b, via=via)
+            try:
+                port = Port(a, platform="ios", protocol="tcp", port_nr=True)
+                _ = (port.line, port.ports, port.sport)
+                if via == "line":
+                    port.line = b
+                elif via == "items":
+                    port.items = list(fresh.items)
+                elif via == "ports":
+                    port.ports = list(fresh.ports)
+                else:
+                    port.sport = fresh.sport
+            except Exception as ex:  # noqa
+                ctx.viol(f"Port.{via}:reassignment_raises", case, repr(ex), want)
+                continue
+            ctx.trans()
+            have = _state(port)
+            if have != want:
+                diff = {k: (have[k], want[k]) for k in have if have[k] != want[k] and k != "ports_digest"}
+                ctx.viol(f"Port.{via}:state_after_reassignment_differs_from_fresh_object", case, diff,
+                         "state of a fresh Port")
+            else:
+                ctx.out("reassign_ok")
+    ctx.sample("reassign", dict(a=a, b=REASSIGN[(first + 1) % len(REASSIGN)]))
 
 
 def _hist_exprs():
